@@ -49,13 +49,7 @@ func HDeterminism() {
 		vMapOrderSite(site)
 		cB, jeB := vBuildProject(doc, vLayoutFiles)
 		if vSymbolic() && vMapOrderSites() <= site {
-			vReach("no-such-site")
-			if jeA != nil {
-				vObserve("sites", vMapOrderSites(), int(jeA.Index), jeA.Msg)
-			} else {
-				vObserve("sites", vMapOrderSites(), "ok")
-			}
-			return
+			vReach("no-such-site") // the driver stops increasing the site number
 		}
 		vMapOrderSite(-1)
 		vAssert((jeA == nil) == (jeB == nil), "c06-accept-reject-depends-on-map-order")
